@@ -269,4 +269,105 @@ func (*Thread).callBytecodePromise
     invariant wfStack(vm) && vm.sp == old(vm.sp) && vm.stack == old(vm.stack) && generator == promise.Body.(*Generator) && generator.stack == old(promise.Body.(*Generator).stack)
     invariant stackLen == len(generator.stack) && baseStack == sliceptr(generator.stack)
     decreases stackLen - range_idx
+
+// ==== hash sets as finite sets (C17) =====================================================
+// Hashing and equality of keys may dispatch to user code; the property presupposes
+// well-behaved keys, so both are modelled as pure functions with the law  a == b ==> hash(a) == hash(b).
+func Hash
+  trusted
+  pure
+  assigns nothing
+
+func Equal
+  trusted
+  pure
+  assigns nothing
+
+spec fn hashOf(vm *Thread, k value.Value) int = fst(Hash(vm, k))
+spec fn hashOk(vm *Thread, k value.Value) bool = snd(Hash(vm, k)).flag == value.UNDEFINED_FLAG
+spec fn eqOk(vm *Thread, a value.Value, b value.Value) bool = snd(Equal(vm, a, b)).flag == value.UNDEFINED_FLAG
+spec fn eqv(vm *Thread, a value.Value, b value.Value) bool = eqOk(vm, a, b) && value.Truthy(fst(Equal(vm, a, b)))
+axiom eqHash: forall vm *Thread, a value.Value, b value.Value :: eqv(vm, a, b) ==> hashOf(vm, a) == hashOf(vm, b)
+
+// slot states of the open-addressing table
+spec fn hsEmpty(v value.Value) bool = v.flag == value.UNDEFINED_FLAG
+spec fn hsTomb(v value.Value) bool = v == DeletedHashSetValue
+spec fn hsLive(v value.Value) bool = !hsEmpty(v) && !hsTomb(v)
+axiom tombIsRef: DeletedHashSetValue.flag == value.REFERENCE_FLAG
+
+// cyclic probing: between(s, p, e) = slot p is reached strictly before e when probing from s
+spec fn between(s int, p int, e int) bool = ite(s <= e, s <= p && p < e, p >= s || p < e)
+spec fn home(vm *Thread, k value.Value, n int) int = emod(hashOf(vm, k), n)
+// probe invariant: no empty slot between the home of a live element and the element
+spec fn wfProbe(vm *Thread, t []value.Value) bool = forall j int, p int :: 0 <= j && j < len(t) && 0 <= p && p < len(t) && hsLive(elem(t, j)) && between(home(vm, elem(t, j), len(t)), p, j) ==> !hsEmpty(elem(t, p))
+
+func HashSetIndex
+  props C17
+  requires set != nil && len(set.table) >= 1 && wfProbe(vm, set.table)
+  assigns nothing
+  ensures range: ret1.flag == value.UNDEFINED_FLAG ==> -1 <= ret0 && ret0 < len(set.table)
+  ensures hit: ret1.flag == value.UNDEFINED_FLAG && ret0 >= 0 && hsLive(elem(set.table, ret0)) ==> eqv(vm, elem(set.table, ret0), val)
+  ensures path: ret1.flag == value.UNDEFINED_FLAG && ret0 >= 0 ==> forall p int :: 0 <= p && p < len(set.table) && between(home(vm, val, len(set.table)), p, ret0) ==> !hsEmpty(elem(set.table, p))
+  ensures absent: ret1.flag == value.UNDEFINED_FLAG && !(ret0 >= 0 && hsLive(elem(set.table, ret0))) ==> forall j int :: 0 <= j && j < len(set.table) && hsLive(elem(set.table, j)) ==> !eqv(vm, elem(set.table, j), val)
+  ensures full: ret1.flag == value.UNDEFINED_FLAG && ret0 == -1 ==> forall p int :: 0 <= p && p < len(set.table) ==> !hsEmpty(elem(set.table, p))
+  loop 1
+    invariant capacity == len(set.table) && 0 <= index && index < capacity && 0 <= startIndex && startIndex < capacity && startIndex == home(vm, val, capacity) && -1 <= deletedIndex && deletedIndex < capacity
+    invariant hashOk(vm, val) && hash == hashOf(vm, val)
+    invariant visited: forall p int :: 0 <= p && p < capacity && between(startIndex, p, index) ==> !hsEmpty(elem(set.table, p)) && (hsLive(elem(set.table, p)) ==> eqOk(vm, elem(set.table, p), val) && !eqv(vm, elem(set.table, p), val))
+    invariant tomb: deletedIndex != -1 ==> between(startIndex, deletedIndex, index) && hsTomb(elem(set.table, deletedIndex))
+
+// ---- counting slots -----------------------------------------------------------------
+spec rec fn liveCount(t []value.Value, k int) int = ite(k <= 0, 0, liveCount(t, k - 1) + ite(hsLive(elem(t, k - 1)), 1, 0))
+spec rec fn occCount(t []value.Value, k int) int = ite(k <= 0, 0, occCount(t, k - 1) + ite(hsEmpty(elem(t, k - 1)), 0, 1))
+
+lemma liveCountRange(t []value.Value, k int)
+  props C17
+  requires 0 <= k && k <= len(t)
+  ensures 0 <= liveCount(t, k) && liveCount(t, k) <= occCount(t, k) && occCount(t, k) <= k
+  induction k from 0
+
+// a zero count means no live slot
+lemma liveCountZero(t []value.Value, k int, j int)
+  props C17
+  requires 0 <= j && j < k && k <= len(t) && liveCount(t, k) == 0
+  ensures !hsLive(elem(t, j))
+  uses liveCountRange
+  induction k from 0
+
+// changing one slot changes the counts by the difference of that slot's state (two states)
+lemma liveCountUpdate(t []value.Value, u []value.Value, i int, k int)
+  props C17
+  requires 0 <= k && k <= len(t) && k <= len(u) && 0 <= i
+  requires forall j int :: 0 <= j && j < k && j != i ==> old(elem(t, j)) == elem(u, j)
+  ensures liveCount(u, k) == old(liveCount(t, k)) + ite(i < k, ite(hsLive(elem(u, i)), 1, 0) - ite(hsLive(old(elem(t, i))), 1, 0), 0)
+  ensures occCount(u, k) == old(occCount(t, k)) + ite(i < k, ite(hsEmpty(elem(u, i)), 0, 1) - ite(hsEmpty(old(elem(t, i))), 0, 1), 0)
+  induction k from 0
+
+// ---- the set abstraction ----------------------------------------------------------------
+// member(vm, t, x): some live slot holds an element equal to x
+spec fn member(vm *Thread, t []value.Value, x value.Value) bool = exists j int :: 0 <= j && j < len(t) && hsLive(elem(t, j)) && eqv(vm, elem(t, j), x)
+// representation invariant of HashSetOfValue
+spec fn wfSet(vm *Thread, s *HashSetOfValue) bool = s != nil && len(s.table) == cap(s.table) && wfProbe(vm, s.table) && s.elements == liveCount(s.table, len(s.table)) && s.occupiedSlots == occCount(s.table, len(s.table))
+
+func HashSetOfValueContains
+  props C17
+  uses liveCountZero, liveCountRange
+  requires wfSet(vm, set)
+  assigns nothing
+  ensures yes: ret1.flag == value.UNDEFINED_FLAG && ret0 ==> member(vm, set.table, val)
+  ensures no: ret1.flag == value.UNDEFINED_FLAG && !ret0 ==> !member(vm, set.table, val)
+
+// removing an element: it is gone, every other element stays, no slot becomes empty
+// (a slot that was occupied stays occupied, which is what keeps probe chains intact)
+func HashSetOfValueDelete
+  props C17
+  uses liveCountZero, liveCountRange, liveCountUpdate
+  requires wfSet(vm, hashSet)
+  ensures wf: ret1.flag == value.UNDEFINED_FLAG ==> wfSet(vm, hashSet)
+  ensures hdr: hashSet.table == old(hashSet.table)
+  ensures noNewEmpty: forall p int :: 0 <= p && p < len(hashSet.table) && !old(hsEmpty(elem(hashSet.table, p))) ==> !hsEmpty(elem(hashSet.table, p))
+  ensures found: ret1.flag == value.UNDEFINED_FLAG ==> (ret0 <==> old(member(vm, hashSet.table, val)))
+  ensures count: ret1.flag == value.UNDEFINED_FLAG ==> hashSet.elements == old(hashSet.elements) - ite(ret0, 1, 0)
+  ensures others: forall p int :: 0 <= p && p < len(hashSet.table) && hsLive(elem(hashSet.table, p)) ==> elem(hashSet.table, p) == old(elem(hashSet.table, p))
+  ensures kept: forall p int :: 0 <= p && p < len(hashSet.table) && old(hsLive(elem(hashSet.table, p))) && !old(eqv(vm, elem(hashSet.table, p), val)) ==> elem(hashSet.table, p) == old(elem(hashSet.table, p))
 @*/
